@@ -34,7 +34,7 @@ static void init_once() {
   if (kn) { std::string s = kn; size_t pos = 0; while (pos < s.size()) { size_t c = s.find(',', pos); if (c == std::string::npos) c = s.size(); if (c > pos) special::g_extra.known.insert(s.substr(pos, c - pos)); pos = c + 1; } }
   g_ps = special::full_spec(g_prop, t);
   // fuzzing favours many small cases
-  g_ps.go.max_k_ldpc = std::min<uint32_t>(g_ps.go.max_k_ldpc, 40); g_ps.go.max_n_ldpc = std::min<uint32_t>(g_ps.go.max_n_ldpc, 80); g_ps.go.max_n_rs = 40; g_ps.go.big_L = false;
+  g_ps.go.max_k_ldpc = std::min<uint32_t>(g_ps.go.max_k_ldpc, 40); g_ps.go.max_n_ldpc = std::min<uint32_t>(g_ps.go.max_n_ldpc, 80); g_ps.go.max_n_rs = 40; g_ps.go.big_L = false; g_ps.go.heavy = false;
   const char* o = getenv("VERIF_FUZZ_OUT"); if (o) g_out = o;
   const char* f = getenv("VERIF_FUZZ_FAILOUT"); if (f) g_failout = f;
   const char* c = getenv("VERIF_FUZZ_CUR"); if (c) g_cur.open(c);
